@@ -38,9 +38,14 @@ type Spec struct {
 	// StdinPipe: feed the file named by Stdin through a pipe in chunks of this
 	// many bytes (reads then return short counts, as on a terminal or a slow
 	// producer); reads on descriptor 0 are attributed to target "src".
-	StdinPipe int     `json:"stdin_pipe,omitempty"`
-	Faults    []Fault `json:"faults"`
-	MaxCall   int     `json:"max_calls,omitempty"`
+	StdinPipe int `json:"stdin_pipe,omitempty"`
+	// Uid/Gid > 0: run the program under these credentials (the tracer stays root)
+	Uid int `json:"uid,omitempty"`
+	Gid int `json:"gid,omitempty"`
+	// WatchDir: every other path below this directory is target "dir"
+	WatchDir string  `json:"watch_dir,omitempty"`
+	Faults   []Fault `json:"faults"`
+	MaxCall  int     `json:"max_calls,omitempty"`
 }
 
 type Injected struct {
@@ -66,6 +71,15 @@ const (
 	sysOpen   = 2
 	sysClose  = 3
 	sysOpenat = 257
+
+	sysFsync     = 74
+	sysFdatasync = 75
+	sysFtruncate = 77
+	sysRename    = 82
+	sysUnlink    = 87
+	sysUnlinkat  = 263
+	sysRenameat  = 264
+	sysRenameat2 = 316
 
 	optSysgood  = 0x1
 	optClone    = 0x8
@@ -166,6 +180,9 @@ func Run(sp *Spec) (*Result, error) {
 	cmd.Env = sp.Env
 	cmd.Stdin, cmd.Stdout, cmd.Stderr = in, out, errf
 	cmd.SysProcAttr = &syscall.SysProcAttr{Ptrace: true}
+	if sp.Uid > 0 {
+		cmd.SysProcAttr.Credential = &syscall.Credential{Uid: uint32(sp.Uid), Gid: uint32(sp.Gid), NoSetGroups: false}
+	}
 	if err := cmd.Start(); err != nil {
 		return nil, fmt.Errorf("ptrace: start: %w", err)
 	}
@@ -189,6 +206,19 @@ func Run(sp *Spec) (*Result, error) {
 	if err := syscall.PtraceSyscall(main, 0); err != nil {
 		return nil, fmt.Errorf("ptrace: resume: %w", err)
 	}
+	pathTarget := func(p string) string {
+		if !filepath.IsAbs(p) {
+			p = filepath.Join(sp.Dir, p)
+		}
+		p = filepath.Clean(p)
+		if t, ok := byPath[p]; ok {
+			return t
+		}
+		if sp.WatchDir != "" && strings.HasPrefix(p, filepath.Clean(sp.WatchDir)+"/") {
+			return "dir"
+		}
+		return ""
+	}
 	fdTarget := func(pid, fd int) string {
 		p, err := os.Readlink(fmt.Sprintf("/proc/%d/fd/%d", pid, fd))
 		if err != nil {
@@ -197,7 +227,13 @@ func Run(sp *Spec) (*Result, error) {
 		if pipeW != nil && fd == 0 && strings.HasPrefix(p, "pipe:") {
 			return "src"
 		}
-		return byPath[filepath.Clean(p)]
+		if t, ok := byPath[filepath.Clean(p)]; ok {
+			return t
+		}
+		if sp.WatchDir != "" && strings.HasPrefix(filepath.Clean(p), filepath.Clean(sp.WatchDir)+"/") {
+			return "dir"
+		}
+		return ""
 	}
 	pick := func(target, sys string, idx int) *Fault {
 		for i := range sp.Faults {
@@ -268,19 +304,35 @@ func Run(sp *Spec) (*Result, error) {
 					th.sys, th.fd = "write", int(int32(regs.Rdi))
 				case sysClose:
 					th.sys, th.fd = "close", int(int32(regs.Rdi))
+				case sysFsync, sysFdatasync:
+					th.sys, th.fd = "fsync", int(int32(regs.Rdi))
+				case sysFtruncate:
+					th.sys, th.fd = "ftruncate", int(int32(regs.Rdi))
+				case sysRename, sysRenameat, sysRenameat2:
+					// the target of a rename is where the new name lands
+					th.sys = "rename"
+					addr := uintptr(regs.Rsi)
+					if regs.Orig_rax != sysRename {
+						addr = uintptr(regs.R10)
+					}
+					th.target = pathTarget(peekString(pid, addr))
+				case sysUnlink, sysUnlinkat:
+					th.sys = "unlink"
+					addr := uintptr(regs.Rdi)
+					if regs.Orig_rax == sysUnlinkat {
+						addr = uintptr(regs.Rsi)
+					}
+					th.target = pathTarget(peekString(pid, addr))
 				case sysOpenat, sysOpen:
 					th.sys = "openat"
 					addr := uintptr(regs.Rsi)
 					if regs.Orig_rax == sysOpen {
 						addr = uintptr(regs.Rdi)
 					}
-					p := peekString(pid, addr)
-					if !filepath.IsAbs(p) {
-						p = filepath.Join(sp.Dir, p)
-					}
-					th.target = byPath[filepath.Clean(p)]
+					th.target = pathTarget(peekString(pid, addr))
 				}
-				if th.sys != "" && th.sys != "openat" {
+				switch th.sys {
+				case "read", "write", "close", "fsync", "ftruncate":
 					th.target = fdTarget(pid, th.fd)
 				}
 				if th.target != "" {
